@@ -1577,6 +1577,8 @@ func (d *Data) adjustMaxLabels(store storage.KeyValueSetter, root dvid.VersionID
 }
 
 func (d *Data) loadMaxLabels(wg *sync.WaitGroup, ch chan *storage.KeyValue) {
+	// signs off however it returns: its starter waits on the group
+	defer wg.Done()
 	ctx := storage.NewDataContext(d, 0)
 	var repoMax uint64
 	d.MaxLabel = make(map[dvid.VersionID]uint64)
@@ -1627,7 +1629,6 @@ func (d *Data) loadMaxLabels(wg *sync.WaitGroup, ch chan *storage.KeyValue) {
 			d.MaxRepoLabel = repoMax
 		}
 	}
-	wg.Done()
 }
 
 // --- imageblk.IntData interface -------------
